@@ -29,9 +29,11 @@ for h in $commits; do
   fired=""
   for p in $prop $also; do
     out=$(VERIF_REPO="$WT" "$ROOT/check" "$p" quick 2>&1); rc=$?
-    if [ $rc -eq 1 ] && echo "$out" | grep -q "^VIOLATION property=$p"; then fired="$fired $p"; [ "$p" = "$prop" ] && break; fi
+    if [ $rc -eq 1 ] && echo "$out" | grep -aq "^VIOLATION property=$p"; then fired="$fired $p"; [ "$p" = "$prop" ] && break; fi
+    if echo "$out" | grep -aq "harness does not build"; then fired="NOBUILD"; break; fi
   done
-  if [ -n "$fired" ]; then echo "FIRED $h $prop by:$fired" | tee -a "$LOG"; pass=$((pass+1)); else echo "MISSED $h $prop ($line)" | tee -a "$LOG"; fail=$((fail+1)); fi
+  if [ "$fired" = "NOBUILD" ]; then echo "SKIP $h $prop (reverted tree does not build: later fixes depend on it)" | tee -a "$LOG"; skipped=$((skipped+1));
+  elif [ -n "$fired" ]; then echo "FIRED $h $prop by:$fired" | tee -a "$LOG"; pass=$((pass+1)); else echo "MISSED $h $prop ($line)" | tee -a "$LOG"; fail=$((fail+1)); fi
   git -C /repo worktree remove --force "$WT"
 done
 rm -rf /tmp/verif-selftest
